@@ -321,7 +321,7 @@ PROPS["C12"] = {
     }],
     "witness": "c12",
     "explanation": "Verus proves, for every extracted function, absence of arithmetic overflow, out-of-range slicing, failed unwrap and reachable unreachable!(), with library panic conditions turned into shim preconditions (clone_from_slice length, slice ranges, from_prk length). MaskedResponse::deserialize (unchecked indexing) is safe because both callers pass exactly Nn+Nh+Npk bytes (precondition proved at both sites). I2OSP refuses every length that does not fit (Kani, complete over usize) so identities/context > 65535 give Err(SerializationError), never truncation; a password > 65535 bytes is refused by the OPRF finalize step. The only loop in extracted code (DeriveKeyPair, 256 iterations) is a bounded `for`.",
-    "assumptions": [A_PRELUDE, "KeyPair::generate_random's unwrap() is reachable only if 256 consecutive hash-to-scalar outputs are zero (precondition `derive_ok`, negligible)", "rejection-sampling loops live in dependencies (assumed to terminate)",
+    "assumptions": ["NIST group: values of type KeGroup::Pk are assumed never to be the identity (constructor audit: deserialize_pk refuses it; public keys and DH results come from non-zero scalars in a prime-order group). serialize_pk(identity) would panic (1-byte SEC1 encoding into a fixed-size array); reaching it needs a direct call of the group trait with a hand-made identity point, which is outside the API the property names", A_PRELUDE, "KeyPair::generate_random's unwrap() is reachable only if 256 consecutive hash-to-scalar outputs are zero (precondition `derive_ok`, negligible)", "rejection-sampling loops live in dependencies (assumed to terminate)",
                     "Curve25519::hash_to_scalar is unimplemented!(): never called by the protocol (no extracted caller references it)"],
 }
 
@@ -342,7 +342,7 @@ PROPS["C19"] = {
     }],
     "witness": "c19",
     "explanation": "Proved: the default DeriveDiffieHellmanKeyPair equals RFC 9497 DeriveKeyPair with info 'OPAQUE-DeriveDiffieHellmanKeyPair' and DST 'DeriveKeyPair' || 'OPRFV1-' || 0 || '-' || suite id — loop invariant 'all earlier counters gave zero', first non-zero scalar returned, Err only after 256 zeros (Verus, all suites); Curve25519's derivation == RFC 7748 clamp(seed), non-zero, survives save/reload (Kani, all 2^256 seeds); KeyPair invariant public == public_key(private); PrivateKey / PublicKey wrappers forward to the group unchanged.",
-    "assumptions": [A_PRELUDE, "that scalar multiplication in dalek / p256 / p384 / p521 is a group action (DH symmetry, public-key consistency) and that their canonical codecs round-trip: arithmetic of dependencies, outside the reach of contracts on this repo; sampled by the replay crate incl. scalars 1 and random, all groups"],
+    "assumptions": ["NIST group: values of type KeGroup::Pk are assumed never to be the identity (constructor audit: deserialize_pk refuses it; public keys and DH results come from non-zero scalars in a prime-order group). serialize_pk(identity) would panic (1-byte SEC1 encoding into a fixed-size array); reaching it needs a direct call of the group trait with a hand-made identity point, which is outside the API the property names", A_PRELUDE, "that scalar multiplication in dalek / p256 / p384 / p521 is a group action (DH symmetry, public-key consistency) and that their canonical codecs round-trip: arithmetic of dependencies, outside the reach of contracts on this repo; sampled by the replay crate incl. scalars 1 and random, all groups"],
 }
 
 NOT_APPLICABLE = {}
